@@ -397,4 +397,15 @@ Fixpoint all_agree (s : st) (ops : list op) : bool :=
               (if is_call o then out_eqv res (fresh o) else true) && all_agree s' r
   end.
 
+Definition damage (o : op) : bool :=
+  match o with Seed _ _ (FBad _) => true | _ => false end.
+Fixpoint no_damage (ops : list op) : bool :=
+  match ops with [] => true | o :: r => negb (damage o) && no_damage r end.
+Fixpoint all_safe (s : st) (ops : list op) : bool :=
+  match ops with
+  | [] => true
+  | o :: r => let (s', res) := step s o in
+              (if is_call o then out_eqv res (fresh o) || (0 <? res_code res) else true) && all_safe s' r
+  end.
+
 Definition last_result (ops : list op) (c : op) : res mres := snd (step (run init ops) c).
